@@ -24,10 +24,11 @@ const (
 	sfReadErr
 	sfWriteErr
 	sfSplice
+	sfTokenSplice
 	nStreamFaults
 )
 
-var sfNames = [...]string{"truncate", "drop-chunk", "duplicate-chunk", "swap-chunks", "flip-byte", "reader-error", "writer-error", "splice-from-other-document"}
+var sfNames = [...]string{"truncate", "drop-chunk", "duplicate-chunk", "swap-chunks", "flip-byte", "reader-error", "writer-error", "splice-from-other-document", "splice-whole-token"}
 
 // markupPos picks a position biased to just after markup characters / inside tokens.
 func markupPos(tape *sim.Tape, b []byte) int {
@@ -123,6 +124,75 @@ func applyStreamFault(tape *sim.Tape, kind int, b []byte) []byte {
 	return b
 }
 
+func isMarkup(mt string) bool {
+	return mt == "text/html" || mt == "image/svg+xml" || mt == "text/xml"
+}
+
+// wholeToken cuts one token out of b: for markup a '<'…'>' run (comments, CDATA and PIs up
+// to their own terminator), otherwise the text between two statement/member delimiters.
+func wholeToken(tape *sim.Tape, b []byte, mt string) []byte {
+	p := tape.Draw(len(b))
+	if isMarkup(mt) {
+		i := bytes.IndexByte(b[p:], '<')
+		if i < 0 {
+			i = bytes.IndexByte(b, '<')
+			p = 0
+			if i < 0 {
+				return nil
+			}
+		}
+		s := p + i
+		end := ">"
+		switch {
+		case bytes.HasPrefix(b[s:], []byte("<!--")):
+			end = "-->"
+		case bytes.HasPrefix(b[s:], []byte("<![CDATA[")):
+			end = "]]>"
+		case bytes.HasPrefix(b[s:], []byte("<?")):
+			end = "?>"
+		}
+		j := bytes.Index(b[s:], []byte(end))
+		if j < 0 || j > 512 {
+			return nil
+		}
+		return b[s : s+j+len(end)]
+	}
+	const delims = ";{},\n"
+	s := p
+	for s > 0 && !bytes.ContainsRune([]byte(delims), rune(b[s-1])) {
+		s--
+	}
+	e := p
+	for e < len(b) && !bytes.ContainsRune([]byte(delims), rune(b[e])) {
+		e++
+	}
+	if e < len(b) {
+		e++
+	}
+	if e-s > 512 {
+		return nil
+	}
+	return b[s:e]
+}
+
+// tokenBoundary picks a position right after a token of b.
+func tokenBoundary(tape *sim.Tape, b []byte, mt string) int {
+	if len(b) == 0 {
+		return 0
+	}
+	p := tape.Draw(len(b))
+	set := ";{},\n"
+	if isMarkup(mt) {
+		set = ">"
+	}
+	for i := p; i < len(b); i++ {
+		if bytes.IndexByte([]byte(set), b[i]) >= 0 {
+			return i + 1
+		}
+	}
+	return len(b)
+}
+
 var c10Entries = []int{EPlain, EBytes, EString, EReader, EWriter, EDirect}
 
 // CurrentSite is what the hang watchdog reports.
@@ -173,6 +243,23 @@ func c10Case(env *Env, tape *sim.Tape) *CaseOut {
 				nd := append([]byte(nil), data[:at]...)
 				nd = append(nd, other.Data[a:a+l]...)
 				data = append(nd, data[at:]...)
+			}
+		case sfTokenSplice:
+			// a whole token of another document of the same type (a tag, a comment, a CDATA
+			// section, a processing instruction; a statement / declaration / member for the
+			// non-markup types) lands at a token boundary of this one: the result is still
+			// well-formed locally, so it reaches branches behind the tokenizer
+			other := env.Corpus[tape.Draw(len(env.Corpus))]
+			for tries := 0; tries < 8 && other.MT != doc.MT; tries++ {
+				other = env.Corpus[tape.Draw(len(env.Corpus))]
+			}
+			if other.MT == doc.MT && len(other.Data) > 0 && len(other.Data) < 1<<16 {
+				if tok := wholeToken(tape, other.Data, doc.MT); len(tok) > 0 {
+					at := tokenBoundary(tape, data, doc.MT)
+					nd := append([]byte(nil), data[:at]...)
+					nd = append(nd, tok...)
+					data = append(nd, data[at:]...)
+				}
 			}
 		default:
 			data = applyStreamFault(tape, k, data)
